@@ -1,7 +1,123 @@
+import LoraVerif.Gen.CmdTables
+import LoraVerif.Model.MacCmdFields
+import LoraVerif.Spec.MacCmdSpec
 import Driver.Util
-/-! Suite C03: line-protocol handlers (stub — replaced when the property's model is built). -/
+/-! Suite C03: command-stream iterators of the six generated tables (model = `MacCmd.run` over the
+table regenerated from the source, spec = `Spec.MacCmd.splitAll` over the specification's tables),
+payload accessors, checked payload constructors. -/
+open MacCmd
 namespace Driver.C03
 
-def handle (_ws : List String) : String := "bad-op"
+def hexOrDash (bs : List Nat) : String :=
+  if bs.isEmpty then "-" else hexOfBytes (bs.map (fun n => n.toUInt8))
+
+def natsOfHex? (s : String) : Option (List Nat) := (bytesOfHex? s).map (fun l => l.map (·.toNat))
+
+def hex2 (n : Nat) : String := hexByte n.toUInt8
+
+/-- the toy block cipher the harness plugs into the multicast key accessors
+(`encrypt_block`: add 1 to every octet, then rotate left by one; `decrypt_block` is its inverse) -/
+def toyEnc (b : List Nat) : List Nat := (b.map (fun x => (x + 1) % 256)).rotateLeft 1
+def toyDec (b : List Nat) : List Nat := (b.rotateRight 1).map (fun x => (x + 255) % 256)
+def toyCipher : Cipher := { enc := toyEnc, dec := toyDec }
+
+def showItems (l : List (Nat × List Nat)) : String :=
+  if l.isEmpty then "-" else "/".intercalate (l.map (fun (id, a) => s!"{id}:{hexOrDash a}"))
+
+def showVal : Val → String
+  | .n v => toString v
+  | .i v => toString v
+  | .b v => if v then "1" else "0"
+  | .hex v => hexOrDash v
+  | .err e => "ERR:" ++ e
+  | .none => "none"
+  | .items l => showItems l
+
+def showSpecVal : Spec.MacCmd.Val → String
+  | .n v => toString v
+  | .i v => toString v
+  | .b v => if v then "1" else "0"
+  | .hex v => hexOrDash v
+  | .err e => "ERR:" ++ e
+  | .none => "none"
+  | .items l => showItems l
+
+def showAccessors (l : List (String × Outcome Val)) : String :=
+  ",".intercalate (l.map (fun (n, v) => n ++ "=" ++ (match v with | .ok v => showVal v | .panic _ => "PANIC")))
+
+def showSpecAccessors (l : List (String × Spec.MacCmd.Val)) : String :=
+  ",".intercalate (l.map (fun (n, v) => n ++ "=" ++ showSpecVal v))
+
+def tableOf? (set : String) : Option Table :=
+  (Gen.CmdTables.allSets.find? (fun p => p.1 == set)).map (fun p => Table.ofRows p.2)
+
+def showItem : Item → String
+  | .cmd c => s!"{hex2 c.cid}:{c.variant}:{hexOrDash c.payload}" ++ "{" ++ showAccessors (accessors toyCipher c.payloadTy c.payload) ++ "}"
+  | .err (.unknownCid cid) => s!"ERR:unknown:{hex2 cid}"
+  | .err (.truncated cid) => s!"ERR:trunc:{hex2 cid}"
+
+/-- C03 judges totality, not field values: the one field on which the code is known to contradict the
+specification (DeviceTimeAns seconds are read MSB-first, known finding C19-devicetime-seconds, reported by
+`./check C19`) is printed here as the code reads it, so that C03 does not report the C19 finding again. -/
+def specDecodeC03 (ty : String) (p : List Nat) : List (String × Spec.MacCmd.Val) :=
+  (Spec.MacCmd.decode toyEnc ty p).map (fun (n, v) =>
+    if ty == "DeviceTimeAnsPayload" && n == "seconds" then (n, .n (Spec.MacCmd.leValue (p.take 4).reverse)) else (n, v))
+
+def showSpecItem : Spec.MacCmd.Item → String
+  | .cmd c p => s!"{hex2 c.cid}:{c.name}:{hexOrDash p}" ++ "{" ++ showSpecAccessors (specDecodeC03 (c.name ++ "Payload") p) ++ "}"
+  | .unknown cid => s!"ERR:unknown:{hex2 cid}"
+  | .truncated cid => s!"ERR:trunc:{hex2 cid}"
+
+def joinItems (l : List String) : String := if l.isEmpty then "-" else ";".intercalate l
+
+def modelIter (T : Table) (data : List Nat) : String :=
+  match run T varLen data with
+  | .panic _ => "PANIC"
+  | .ok r => if r.hang then "HANG" else s!"{joinItems (r.items.map showItem)} rest={hexOrDash r.final.data}"
+
+def specIter (T : List Spec.MacCmd.Cmd) (data : List Nat) : String :=
+  let (items, rest) := Spec.MacCmd.splitAll T data
+  s!"{joinItems (items.map showSpecItem)} rest={hexOrDash rest}"
+
+def fnvStr (h : Fnv) (s : String) : Fnv := (s.toUTF8.foldl (fun h b => h.byte b) h).byte 10
+
+/-- digest over all strings `prefix ++ s`, `s` ranging over the `256^k` strings of length `k`, in lexicographic order -/
+partial def digestAll (f : List Nat → String) (pre : List Nat) (k : Nat) (h : Fnv) : Fnv :=
+  if k = 0 then fnvStr h (f pre)
+  else Id.run do
+    let mut h := h
+    for b in [0:256] do
+      h := digestAll f (pre ++ [b]) (k - 1) h
+    return h
+
+def modelNew (T : Table) (ty : String) (data : List Nat) : String :=
+  match newPayload T ty data with
+  | .panic _ => "PANIC"
+  | .ok (.error e) => "ERR:" ++ e
+  | .ok (.ok p) => s!"{hexOrDash p}" ++ "{" ++ showAccessors (accessors toyCipher ty p) ++ "}"
+
+def specNew (T : List Spec.MacCmd.Cmd) (ty : String) (data : List Nat) : String :=
+  let name := if ty.endsWith "Payload" then (ty.dropEnd 7).toString else ty
+  match Spec.MacCmd.newPayload T name data with
+  | .error e => "ERR:" ++ e
+  | .ok p => s!"{hexOrDash p}" ++ "{" ++ showSpecAccessors (specDecodeC03 ty p) ++ "}"
+
+def handle (ws : List String) : String :=
+  match ws with
+  | ["iter", set, hex] =>
+    match tableOf? set, Spec.MacCmd.setByName set, natsOfHex? hex with
+    | some T, some S, some d => s!"{modelIter T d}|{specIter S d}"
+    | _, _, _ => "bad-op"
+  | ["iter_digest", set, pre, k] =>
+    match tableOf? set, Spec.MacCmd.setByName set, natsOfHex? pre, k.toNat? with
+    | some T, some S, some p, some k =>
+      if k > 3 then "bad-op"
+      else s!"{hex64 (digestAll (modelIter T) p k {}).h}|{hex64 (digestAll (specIter S) p k {}).h}"
+    | _, _, _, _ => "bad-op"
+  | ["new", set, ty, hex] =>
+    match tableOf? set, Spec.MacCmd.setByName set, natsOfHex? hex with
+    | some T, some S, some d => s!"{modelNew T ty d}|{specNew S ty d}"
+    | _, _, _ => "bad-op"
+  | _ => "bad-op"
 
 end Driver.C03
